@@ -34,7 +34,7 @@ RES = {"dup": 0, "le_lib": 1, "orphan": 2, "invalid": 3, "connected": 4, "side":
 Z = vf.coq_Z
 
 
-HASH_MOD = (1 << 61) - 1
+HASH_MASK = (1 << 60) - 1
 CODE_R, CODE_G = 8, 9
 
 
@@ -51,14 +51,15 @@ def flat_obs(code, o):
         out += [c["id"], c["no"], c["bp"], c["range"], c["left"]]
     main = o["main"] or []
     out.append(len(main))
-    out += main
+    if code in (6, 7):
+        out += main
     return out
 
 
 def obs_hash(code, o):
-    h = 0
+    h = 5381
     for x in flat_obs(code, o):
-        h = (h * 1000003 + (x + 7) % HASH_MOD) % HASH_MOD
+        h = ((h << 5) + h + x + 7) & HASH_MASK
     return h
 
 
@@ -314,7 +315,12 @@ def load_corpus():
 
 
 def run(ctx):
+    import time
+    T = {}
+    t0 = time.time()
     pr = ctx.prove()
+    T['prove'] = round(time.time() - t0, 1)
+    t0 = time.time()
     quick = ctx.tier == "quick"
     ctx.cov["trusted_base"] = [
         "Coq 8.16.1 kernel + vm_compute", "Go toolchain + overlay build of package dpos",
@@ -330,11 +336,15 @@ def run(ctx):
     if rc != 0:
         raise RuntimeError("C08 engine build failed:\n" + log[-3000:])
 
+    T['build'] = round(time.time() - t0, 1)
+    t0 = time.time()
     rng = ctx.rng
     corpus = load_corpus()
     scen = list(corpus)
     scen += G.generate(rng, quick)
     obs = run_engine(ctx, binpath, scen, "c08")
+    T['engine'] = round(time.time() - t0, 1)
+    t0 = time.time()
 
     stats = {"deliveries": 0, "restarts": 0, "restart_prpsd_diff": 0, "restart_prpsd_diff_above_lib": 0,
              "plib_changes": 0, "lib_changes": 0}
@@ -356,7 +366,11 @@ def run(ctx):
         for o in ob:
             s = o["state"]
             shapes.add((sc["n"], o["op"], o["res"], len(s["prpsd"] or []), len(s["confirms"] or []), min(s["lib_no"], 40)))
+    T['predicates'] = round(time.time() - t0, 1)
+    t0 = time.time()
     bad, out = model_eval(ctx, "c08_cases", cases)
+    T['model_eval'] = round(time.time() - t0, 1)
+    ctx.cov['timing_s'] = T
     corr_broken = None
     if bad is None:
         corr_broken = ("C08 correspondence could not be evaluated", out[-2000:])
